@@ -455,7 +455,8 @@ def judge(ctx, case, name, t, before, before_full, outcome, n, axis, mode, tg, p
     if not resp["model_holds"] and resp["pre"]:
         ctx.diverge(full, "theorem model_holds contradicted by the driver", tg)
     model_empty = "ok" in resp["model"] and (not resp["model"]["ok"]["ids"] or not resp["model"]["ok"]["oids"])
-    if profile == "raise" and model_empty and resp["pre"]:
+    input_empty = not before["ids"] or not before["oids"]
+    if profile == "raise" and (model_empty or input_empty):
         # the caller asked for empty tables to be refused (biom.err empty='raise'): the refusal is the configured
         # reaction; the input must still be what it was
         if res.get("error") == "TableException" and resp["clause"] != "input-unchanged":
@@ -598,14 +599,17 @@ def table_case(ctx, impls, spec, route, n, axis, mode, seed, tags=(), histories=
                 check_bystanders(ctx, full, tg, bys, ctx.rng)
             # same seed, spelled as a plain int keyword => the same table
             if r is not None:
+                # (the same table in the same state: same history, same reads before the call)
                 t2 = apply_history(core.build(spec, route), h)
+                if extras.get("poke") is not None:
+                    core.poke_layout(t2, random.Random(extras["poke"]))
                 with kernels.use_kernels(mods):
                     r2 = do_subsample(t2, n, axis, mode, seed, {"profile": None})
                 o1, o2 = core.table_obs(r), core.table_obs(r2)
                 if o1 != o2:
                     ctx.fail(full, "same-seed-same-result", tg, detail={"first": o1, "second": o2})
                 if len(ctx._late) < 16:
-                    ctx._late.append((spec, route, h, n, axis, mode, seed, name, mods, o1, full, tg))
+                    ctx._late.append((spec, route, h, extras.get("poke"), n, axis, mode, seed, name, mods, o1, full, tg))
             # in-place changes of the RESULT must not reach the input or any table derived from it
             if r is not None and extras.get("bystanders") and r.shape[0] and r.shape[1]:
                 r.transform(lambda v, i, m: v * 3, axis=axis, inplace=True)
@@ -631,8 +635,11 @@ def table_case(ctx, impls, spec, route, n, axis, mode, seed, tags=(), histories=
 
 def late_recheck(ctx):
     """process-level state: the first calls of the run, repeated at its end, must give what they gave"""
-    for spec, route, h, n, axis, mode, seed, name, mods, o1, full, tg in ctx._late:
+    import random
+    for spec, route, h, poke, n, axis, mode, seed, name, mods, o1, full, tg in ctx._late:
         t = apply_history(core.build(spec, route), h)
+        if poke is not None:
+            core.poke_layout(t, random.Random(poke))
         with kernels.use_kernels(mods):
             o2 = core.table_obs(do_subsample(t, n, axis, mode, seed, {"profile": None}))
         ctx.count("late re-check of an early call")
@@ -801,7 +808,15 @@ def run_all(ctx):
                 "layouts (CSC and CSR) by a prior use (in-place filter/transform, data()/iter() read, result of an earlier "
                 "subsample) and the input is compared (ids, cells, metadata, matrix structure) after the call; "
                 "biom.util.generate_subsamples: 2-3 draws pulled, by_id on/off, both axes, every draw judged like "
-                "Table.subsample against the ORIGINAL input, input compared after each pull. distinct = distinct (vectors|table, n, axis, mode, "
+                "Table.subsample against the ORIGINAL input, input compared after each pull; hardening: read-only layout "
+                "pokes before the call, inputs already subsampled then changed in place (doubled / renamed with longer "
+                "IDs), ID texts differing by blank/newline/case/extension, non-ASCII and very long IDs, tables with >=64 "
+                "IDs on either axis, seed spelled 0 / numpy integer / Generator object, numpy-integer n, positional "
+                "arguments, errstate(empty=raise|warn|call) (an empty result refused under 'raise' is accepted, the "
+                "input must be unchanged and the profile restored), bystander tables derived from the input "
+                "(transpose, sort_order, filter copy, copy) and in-place changes of the RESULT must leave input and "
+                "bystanders unchanged and answering by-ID lookups, documented refusals leave the input unchanged and "
+                "coherent, the first calls of the run are repeated at its end. distinct = distinct (vectors|table, n, axis, mode, "
                 "script|seed); non-trivial = some vector reaches n (kernel) / some vector on the axis is non-zero")
     ctx.trusted = ["numpy Generator: choice(total, n, replace=False) returns n distinct positions below total, uniformly; "
                    "multinomial(n, p) returns naturals summing to n, zero where p is zero; shuffle permutes uniformly "
